@@ -21,7 +21,7 @@ ASSUMPTIONS = ['device memory protocol as in the firmware: read reply <=24 data 
                'duplicates are drained before a conflicting request is issued (a stale reply may legitimately carry old data)']
 REQUIRED = ['mon.reads_completed', 'mon.writes_completed', 'mon.failed_notifications', 'mon.images_compared',
             'mon.chunk_requests', 'mon.probe_after_history', 'mon.link_drop_runs', 'mon.error_status_runs',
-            'mon.requests_issued_while_no_link_is_open',
+            'mon.requests_issued_while_no_link_is_open', 'mon.deck_memory_requests_issued_from_a_completion_callback',
             'mon.duplicate_reply_runs', 'mon.lossy_runs', 'mon.high_address_runs']
 DESC_TIMEOUT = 900
 
@@ -38,6 +38,7 @@ def cases(tier, seed):
                     'nops': rnd.randint(1, 6), 'sched': rnd.choice(('rtb', 'random', 'random', 'pct')),
                     'line_p': rnd.choice((0.0, 0.0, 0.03)), 'high': i % 5 == 0, 'many': i % 23 == 7,
                     'kmax': 6 if tier == 'quick' else 14})
+    out += [{'part': 'deck', 'seed': seed * 37 + i, 'n': 40} for i in range(2 if tier == 'quick' else 10)]
     return out
 
 
@@ -402,8 +403,143 @@ def judge(desc, k, res, ctx, rp):
             break
 
 
+class _DeferredMemHandler:
+    """mem_handler of a MemoryElement whose completions arrive later (as over a link): requests are queued and completed
+    one at a time by pump()."""
+
+    def __init__(self, size):
+        self.image = bytearray(size)
+        self.pending = []
+        self.fail_next_read = False
+
+    def read(self, mem, addr, length):
+        self.pending.append(('r', mem, addr, length))
+        return True
+
+    def write(self, mem, addr, data, flush_queue=False, progress_cb=None):
+        self.pending.append(('w', mem, addr, bytes(bytearray(data))))
+        return True
+
+    def pump(self):
+        n = 0
+        while self.pending and n < 1000:
+            n += 1
+            kind, mem, addr, x = self.pending.pop(0)
+            if kind == 'r':
+                if self.fail_next_read:
+                    self.fail_next_read = False
+                    mem._new_data_failed(mem, addr, bytearray())
+                else:
+                    mem._new_data(mem, addr, bytearray(self.image[addr:addr + x]))
+            else:
+                self.image[addr:addr + len(x)] = x
+                mem._write_done(mem, addr)
+
+
+def run_deck(desc, ctx):
+    """Deck memory (a memory element with a manager-level pending-request record of its own): every read / write gets
+    exactly one notification with the device's bytes - also when the next request is issued from inside the completion
+    callback of the previous one - and nothing is left pending afterwards."""
+    import struct
+    from cflib.crazyflie.mem.deck_memory import DeckMemoryManager
+    rnd = random.Random(desc['seed'])
+    for it in range(desc.get('n', 30)):
+        h = _DeferredMemHandler(0x4000)
+        bases = [0x1000, 0x2000]
+        img = bytes([3])
+        for i in range(8):
+            if i < 2:
+                rec = bytes([1 | 2 | 4 | 8, 0]) + struct.pack('<LLL', 0, 0, bases[i]) + ('deck%d' % i).encode().ljust(18, b'\0')
+            else:
+                rec = bytes(32)
+            img += rec
+        h.image[:len(img)] = img
+        for b in bases:
+            h.image[b:b + 0x200] = bytes(rnd.getrandbits(8) for _ in range(0x200))
+        mgr = DeckMemoryManager(id=5, type=0x19, size=0x4000, mem_handler=h)
+        found = []
+        mgr.query_decks(lambda d: found.append(d))
+        h.pump()
+        if len(found) != 1 or sorted(found[0]) != [0, 1]:
+            ctx.violate('mem:deck:query-did-not-find-the-decks', {'found': [sorted(f) for f in found]})
+            continue
+        decks = found[0]
+        notes = []        # (request id, kind, addr, data)
+        plan = []
+        for q in range(rnd.randint(2, 6)):
+            plan.append((rnd.choice(('r', 'r', 'w')), rnd.randrange(2), rnd.randrange(0, 0x180), rnd.randint(1, 60),
+                         rnd.random() < 0.6))    # last: issued from inside the previous completion callback
+        expect = []
+        refused = []
+
+        def issue(qi):
+            if qi >= len(plan):
+                return
+            kind, di, addr, ln, chained = plan[qi]
+            nxt_chained = qi + 1 < len(plan) and plan[qi + 1][4]
+
+            def done_r(a, data, qi=qi):
+                notes.append((qi, 'read', a, bytes(data)))
+                if nxt_chained:
+                    issue(qi + 1)
+
+            def done_w(a, qi=qi):
+                notes.append((qi, 'write', a, None))
+                if nxt_chained:
+                    issue(qi + 1)
+            try:
+                if kind == 'r':
+                    expect.append((qi, 'read', addr, bytes(h.image[bases[di] + addr:bases[di] + addr + ln])))
+                    decks[di].read(addr, ln, done_r, lambda a, qi=qi: notes.append((qi, 'read_failed', a, None)))
+                else:
+                    data = bytes(rnd.getrandbits(8) for _ in range(ln))
+                    expect.append((qi, 'write', None, None))
+                    decks[di].write(addr, data, done_w, lambda a, qi=qi: notes.append((qi, 'write_failed', a, None)))
+            except Exception as e:  # noqa
+                refused.append((qi, repr(e)))
+        qi = 0
+        while qi < len(plan):
+            issue(qi)
+            h.pump()
+            # the chain started at qi ran as far as it was chained
+            qi += 1
+            while qi < len(plan) and plan[qi][4]:
+                qi += 1
+        ctx.evals()
+        ctx.count('mon.deck_memory_requests', len(plan))
+        ctx.count('mon.deck_memory_requests_issued_from_a_completion_callback', sum(1 for q in plan[1:] if q[4]))
+        ctx.nontrivial(('deck', desc['seed'], it))
+        ok = not refused and len(notes) == len(expect)
+        if ok:
+            for (qi_, kind, addr, data), n in zip(expect, sorted(notes)):
+                if n[0] != qi_ or n[1] != kind or (kind == 'read' and (n[2] != addr or n[3] != data)):
+                    ok = False
+        if not ok:
+            ctx.violate('mem:deck:request-not-notified-exactly-once-with-the-device-bytes',
+                        {'plan': [(q[0], q[1], q[2], q[3], q[4]) for q in plan], 'refused': refused[:3],
+                         'notifications': [(n[0], n[1]) for n in notes]}, replay={'part': 'deck', 'seed': desc['seed'], 'n': it + 1})
+            continue
+        # a failed read is notified once and leaves nothing behind
+        fails = []
+        h.fail_next_read = True
+        try:
+            decks[0].read(4, 8, lambda a, d: fails.append(('ok', a)), lambda a: fails.append(('failed', a)))
+            h.pump()
+            after = []
+            decks[1].read(0, 4, lambda a, d: after.append(bytes(d)))
+            h.pump()
+        except Exception as e:  # noqa
+            fails.append(('raised', repr(e)))
+            after = []
+        if fails != [('failed', 4)] or after != [bytes(h.image[bases[1]:bases[1] + 4])] or \
+                mgr._read_complete_cb is not None or mgr._write_complete_cb is not None:
+            ctx.violate('mem:deck:pending-record-left-behind-or-request-not-served', {'failed_read': fails, 'next_read': [a.hex() for a in after]})
+
+
 def run(desc, ctx):
     harness.init()
+    if desc.get('part') == 'deck':
+        return run_deck(desc, ctx)
     fault = desc['fault']
     if 'only_k' in desc:
         ks = [desc['only_k']]
